@@ -426,7 +426,7 @@ fn main() {
     }
 
     let mut rng = Rng::new(seed);
-    let (n_cfg, n_op, budget, nrandom, zoo_docs, n_rich) = if thorough { (1000, 100, 30000, 40, 60, 150) } else { (40, 8, 1500, 8, 12, 14) };
+    let (n_cfg, n_op, budget, nrandom, zoo_docs, n_rich) = if thorough { (1000, 100, 15000, 40, 60, 150) } else { (40, 8, 1500, 8, 12, 14) };
 
     if let Some(corpus) = zoo_corpus("c15") {
         for (i, line) in corpus.lines().enumerate() {
